@@ -31,12 +31,17 @@ WEmptyReplyDelivered == SReply # {} /\ Head(rxq[CHOOSE k \in SReply : TRUE]).len
 WEmptyAnswerCompletesDns == rpc = "regin" /\ rcur.len = 0 /\ Rev(rcur.lab) \in DOMAIN pipeTab /\ pipeTab[Rev(rcur.lab)].pend = 1 /\ RegisterIncoming
 WEmptyReplyKeepsFlowAlive == rpc = "regin" /\ rcur.len = 0 /\ Rev(rcur.lab) \in DOMAIN pipeTab /\ pipeTab[Rev(rcur.lab)].la < now /\ RegisterIncoming
 WEmptyDatagramSent == SinkWriteOk /\ lcur.len = 0
+WTooBigDropped == SinkWriteTooBig /\ Cardinality(DOMAIN fwdTab) > 1
+WSendErrWhilePeersUp == SinkWriteErr /\ down = {}
+WErrReadWhilePeersUp == SErr # {} /\ down = {} /\ SockErrRead(CHOOSE k \in SErr : TRUE)
+WSentAfterTooBig == SinkWriteOk /\ Len(done) > 0 /\ done[Len(done)].out = "toobig"
 WLastSurvivesTick == Tick /\ DOMAIN pipeTab # {} /\ ExpiredSet = {} /\ \E k \in DOMAIN pipeTab : pipeTab[k].la + T = now
 
 Witnesses == WFreshAfterExpiry \/ WExpireWhileMirrorLives \/ WExpireSeveral \/ WDnsReleaseOthersLive
              \/ WSendErrOthersLive \/ WErrReadOthersLive \/ WConnErrOthersLive \/ WSentAfterError
              \/ WReplyWhileLeftParked \/ WLastSurvivesTick \/ WEmptyReplyDelivered \/ WEmptyAnswerCompletesDns
-             \/ WEmptyReplyKeepsFlowAlive \/ WEmptyDatagramSent \/ WReplyDroppedByClient \/ WDnsDoneThoughDropped
+             \/ WEmptyReplyKeepsFlowAlive \/ WEmptyDatagramSent
+             \/ WTooBigDropped \/ WSendErrWhilePeersUp \/ WErrReadWhilePeersUp \/ WSentAfterTooBig \/ WReplyDroppedByClient \/ WDnsDoneThoughDropped
 
 MCNext == Next \/ Witnesses
 MCSpec == Init /\ [][MCNext]_vars
